@@ -817,12 +817,37 @@ def mk(zs, w, fold):
     return _P["p"].DateTime(*fields(w), tzinfo=tzobj(zs), fold=fold)
 
 
+_OTHER = {"en": "fr", "fr": "de", "de": "ru"}
+
+
+def _with_locale(op, loc, fn):
+    """The locale reaches format()/from_format() either as an explicit `locale=` argument or through the global default
+    (`pendulum.set_locale`), possibly after the same format string was already used under ANOTHER default locale; the result
+    must be the same. A deterministic function of the op picks the route. `fn(kw)` does the call with the keyword dict."""
+    import zlib
+    p = _P["p"]
+    hist = zlib.crc32(repr(op).encode()) % 3
+    if hist == 0:
+        return fn({"locale": loc})
+    try:
+        if hist == 2:
+            p.set_locale(_OTHER.get(loc, "en"))
+            try:
+                fn({})
+            except Exception:  # noqa: BLE001
+                pass
+        p.set_locale(loc)
+        return fn({})
+    finally:
+        p.set_locale("en")
+
+
 def impl(op, backend):
     k = op[0]
     try:
         if k == "fmt":
             _, loc, parts, zs, w, fold = op
-            return "ok " + C.enc_str(mk(zs, w, fold).format(assemble(parts), locale=loc))
+            return "ok " + C.enc_str(_with_locale(op, loc, lambda kw: mk(zs, w, fold).format(assemble(parts), **kw)))
         if k == "tostr":
             _, h, zs, w, fold = op
             return "ok " + C.enc_str(getattr(mk(zs, w, fold), h)())
@@ -833,7 +858,7 @@ def impl(op, backend):
             x = mk(zs, w, fold)
             string = x.format(fmt, locale=loc)
             _P["now"] = p.datetime(now[0], now[1], now[2], 11, 22, 33, 444555)
-            r = p.from_format(string, fmt, locale=loc)
+            r = _with_locale(op, loc, lambda kw: p.from_format(string, fmt, **kw))
             o = r.utcoffset()
             return "ok %s %d %d %d %d %d %d %d %d" % (C.enc_str(string), r.year, r.month, r.day, r.hour, r.minute, r.second,
                                                      r.microsecond, o.days * 86400 + o.seconds)
